@@ -36,6 +36,10 @@ EvOp ==
             THEN /\ V({<<"PutRejectsColonUser", Rec.res # "ok">>}) /\ UNCHANGED <<doc, exists>>
             ELSE /\ doc' = PutDoc(doc, Rec.addr, CredRec(Rec.cred)) /\ exists' = TRUE
                  /\ V({<<"PutSucceeds", Rec.res = "ok">>})
+       [] Rec.op = "putretry" ->       \* a Put whose save was made to fail, then the same Put again on the same store
+            /\ doc' = PutDoc(doc, Rec.addr, CredRec(Rec.cred)) /\ exists' = TRUE
+            /\ V({<<"FailedSaveReported", Rec.first # "ok">>,
+                  <<"PutSucceeds", Rec.res = "ok">>})
        [] Rec.op = "delete" ->
             /\ doc' = DelDoc(doc, Rec.addr)
             /\ exists' = (exists \/ Rec.addr \in Addrs(doc))
@@ -88,11 +92,21 @@ EvCrash ==
         <<"CrashOwnerOnly", (Rec.exists /\ Rec.parses /\ got # doc) => Rec.mode = "600">>})
   /\ UNCHANGED <<doc, host, exists>>
 
+\* a Put / Delete during which no file may grow beyond a limit (writes fail): the operation either reports the failure
+\* and leaves the old file, or succeeds with the new one - never a damaged or half-written file
+EvWFault ==
+  /\ Rec.e = "wfault"
+  /\ LET new == ApplyOp(doc, Rec.victim)  got == DocOf(Rec.doc) IN
+     V({<<"WriteFaultOldOrNew", IF Rec.exists THEN Rec.parses /\ got \in {doc, new} ELSE ~exists>>,
+        <<"WriteFaultReported", (Rec.res = "ok" /\ Rec.exists /\ Rec.parses) => got = new>>,
+        <<"WriteFaultLeavesOld", (Rec.res = "err" /\ Rec.exists /\ Rec.parses) => got = doc>>})
+  /\ UNCHANGED <<doc, host, exists>>
+
 Step ==
   /\ l <= Len(Trace)
   /\ l' = l + 1
   /\ done' = FALSE
-  /\ \/ EvInit \/ EvOp \/ EvFile \/ EvConc \/ EvCrash
+  /\ \/ EvInit \/ EvOp \/ EvFile \/ EvConc \/ EvCrash \/ EvWFault
 Finish ==
   /\ l = Len(Trace) + 1 /\ ~done
   /\ done' = TRUE
